@@ -3,12 +3,14 @@ package props
 import (
 	"fmt"
 	"math"
+	"strings"
 	"testing"
 
 	"pgregory.net/rapid"
 
 	"verif/xast"
 	"verif/xmodel"
+	"verif/xparse"
 	"verif/xref"
 )
 
@@ -36,19 +38,20 @@ func c05PoolEvents() []xmodel.Event {
 }
 
 type operand struct {
-	b   varBinding // bound as $l / $r
-	cls string
+	b    varBinding // bound as $l / $r
+	cls  string
+	path string // for node-sets: a path expression selecting the same nodes in the pool document
 }
 
 func c05Operands(p *prepared) []operand {
 	var out []operand
 	for _, f := range []float64{0, math.Copysign(0, -1), 1, -1, 9, 10, 2.5, math.NaN(), math.Inf(1), math.Inf(-1), 1e21, 0.1} {
-		out = append(out, operand{varBinding{T: "num", Num: fmtFloat(f)}, "number:" + numClass(f)})
+		out = append(out, operand{b: varBinding{T: "num", Num: fmtFloat(f)}, cls: "number:" + numClass(f)})
 	}
 	for _, s := range []string{"", "10", "9", " 9 ", "abc", "NaN", "b", "1e1", "2.50", "true", "-1", "é"} {
-		out = append(out, operand{varBinding{T: "str", Str: s}, "string:" + strClass(s)})
+		out = append(out, operand{b: varBinding{T: "str", Str: s}, cls: "string:" + strClass(s)})
 	}
-	out = append(out, operand{varBinding{T: "bool", Bool: true}, "boolean"}, operand{varBinding{T: "bool", Bool: false}, "boolean"})
+	out = append(out, operand{b: varBinding{T: "bool", Bool: true}, cls: "boolean"}, operand{b: varBinding{T: "bool", Bool: false}, cls: "boolean"})
 	r := p.doc.Root.Children[0]
 	ref := func(i int) string { return r.Children[i].Ref() }
 	sets := [][]string{{}, {ref(0)}, {ref(1)}, {ref(2)}, {ref(3)}, {ref(4)}, {ref(5)}, {ref(6)}, {ref(7)}, {ref(9)}, {ref(10)},
@@ -62,7 +65,26 @@ func c05Operands(p *prepared) []operand {
 		} else if len(s) > 1 {
 			cls = "node-set:several"
 		}
-		out = append(out, operand{varBinding{T: "nodes", Nodes: s}, cls})
+		// the same node-set as a path: a union of absolute paths by position
+		var parts []string
+		for _, r := range s {
+			n := p.doc.Resolve(r)
+			switch {
+			case n == p.doc.Root:
+				parts = append(parts, "/")
+			case n.Kind == xmodel.Attr:
+				parts = append(parts, fmt.Sprintf("/r/%s/@v", n.Parent.Local))
+			case n.Parent == p.doc.Root:
+				parts = append(parts, "/r")
+			default:
+				parts = append(parts, "/r/"+n.Local)
+			}
+		}
+		path := strings.Join(parts, " | ")
+		if len(s) == 0 {
+			path = "/r/nosuch"
+		}
+		out = append(out, operand{varBinding{T: "nodes", Nodes: s}, cls, path})
 	}
 	return out
 }
@@ -118,6 +140,43 @@ func TestC05(t *testing.T) {
 						c.Text = err.Error()
 						recordFailure("C05", "c05-cmp", c, err.Error())
 						t.Fatalf("C05/matrix: %v", err)
+					}
+				}
+			}
+		}
+		// the same matrix with every node-set operand written as a path expression
+		for _, op := range cmpOps {
+			for _, ns := range ops {
+				if ns.path == "" {
+					continue
+				}
+				for _, other := range ops {
+					for side := 0; side < 2; side++ {
+						idx++
+						if idx%envShards != envShard {
+							continue
+						}
+						ob := other.b
+						var text string
+						if side == 0 {
+							ob.Local = "r"
+							text = "(" + ns.path + ") " + op + " $r"
+						} else {
+							ob.Local = "l"
+							text = "$l " + op + " (" + ns.path + ")"
+						}
+						ast, _, perr := xparse.Parse(text, xparse.Strict)
+						if perr != nil {
+							t.Fatalf("harness: %q does not parse: %v", text, perr)
+						}
+						c := &evalCase{Events: ev, Ctx: "/", Expr: ast, Text: text, Vars: []varBinding{ob}}
+						_, _, err := evalPrepared(c, p)
+						st.Eval(1)
+						st.Class("path-operand " + op)
+						if err != nil {
+							recordFailure("C05", "c05-cmp", c, err.Error())
+							t.Fatalf("C05/matrix: %v", err)
+						}
 					}
 				}
 			}
